@@ -28,11 +28,12 @@ type c04Scenario struct {
 
 func init() {
 	register(&PropDef{
-		ID:   "C04",
-		Rule: "scenario = (Insecure, TLS config nil / fixture roots / InsecureSkipVerify, ServerName) x a history of 1-3 connections on one client, each with STARTTLS {absent, offered, required} x reply {proceed, failure, unexpected, malformed, close} x certificate {good, good for both names, wrong host, untrusted, expired, valid only for ServerName, handshake aborted}; non-trivial = at least one connection received the client's stream header; distinct = distinct (scenario hash, schedule hash)",
-		Real: []string{"xmpp.Client.Connect/Resume", "xmpp.NewSession TLS gate", "XMPPTransport.StartTLS", "crypto/tls + crypto/x509 on both ends"},
-		Stub: []string{"TCP (simnet)", "XMPP server (scripted model, real tls.Server with Ed25519 fixture chains)", "clock (synctest; certificates valid around the fake epoch)", "goroutine scheduling (token scheduler)", "TLS entropy (seeded)"},
-		Run:  runC04,
+		ID:    "C04",
+		Rule:  "scenario = (Insecure, TLS config nil / fixture roots / InsecureSkipVerify, ServerName) x a history of 1-3 connections on one client, each with STARTTLS {absent, offered, required} x reply {proceed, failure, unexpected, malformed, close} x certificate {good, good for both names, wrong host, untrusted, expired, valid only for ServerName, handshake aborted}; non-trivial = at least one connection received the client's stream header; distinct = distinct (scenario hash, schedule hash)",
+		Real:  []string{"xmpp.Client.Connect/Resume", "xmpp.NewSession TLS gate", "XMPPTransport.StartTLS", "crypto/tls + crypto/x509 on both ends"},
+		Stub:  []string{"TCP (simnet)", "XMPP server (scripted model, real tls.Server with Ed25519 fixture chains)", "clock (synctest; certificates valid around the fake epoch)", "goroutine scheduling (token scheduler)", "TLS entropy (seeded)"},
+		Run:   runC04,
+		Reach: []string{"c04.tls_established", "c04.websocket_address", "srv.request_after_client_closed"},
 	})
 }
 
